@@ -138,14 +138,36 @@ def check_root_resolved(ctx: Context, rep, rule: str) -> None:
     working directory of every later call, an unresolved one fails the
     resolved-vs-resolved containment test of the list loader."""
     init = ctx.fn(f"{BASE}.__init__")
-    res_assign = [n for n in init.body_nodes() if isinstance(n, ast.Assign) and
-                  dotted(n.targets[0]) == "self.path" and isinstance(
-                      n.value, ast.Call) and isinstance(
-                          n.value.func, ast.Attribute) and
-                  n.value.func.attr == "resolve"]
-    rep.ob(rule, len(res_assign) == 1, loc=init.loc(), where=init.qualname,
-           construct="self.path = self.path.resolve()",
-           message="the handle's root is resolved once, at construction")
+    cfg = ctx.cfg(init)
+
+    def target_of(n):
+        if isinstance(n, ast.Assign) and len(n.targets) == 1:
+            return n.targets[0]
+        if isinstance(n, ast.AnnAssign) and n.value is not None:
+            return n.target
+        return None
+
+    stores = [n for n in cfg.nodes if n.kind == "stmt" and
+              target_of(n.ast) is not None and
+              dotted(target_of(n.ast)) == "self.path"]
+    # the stores whose value is the one the constructed object keeps
+    last = [s for s in stores if cfg.exit in cfg.reachable(
+        [s], avoiding=[o for o in stores if o is not s],
+        follow=lambda a, b, lab: lab not in ("exc", "raise"))]
+    unset = cfg.exit in cfg.reachable(
+        [cfg.entry], avoiding=stores,
+        follow=lambda a, b, lab: lab not in ("exc", "raise"))
+    ok = bool(last) and not unset and all(
+        isinstance(s.ast.value, ast.Call) and isinstance(
+            s.ast.value.func, ast.Attribute) and
+        s.ast.value.func.attr == "resolve" and not s.ast.value.args
+        for s in last)
+    rep.ob(rule, ok, loc=init.loc(last[0].ast) if last else init.loc(),
+           where=init.qualname,
+           construct="; ".join(short(s.ast, 60) for s in last) or
+           "self.path never assigned",
+           message="the handle's root is resolved once, at construction: "
+           "the value self.path keeps is <path>.resolve() on every path")
 
 
 def run(ctx: Context, rep) -> None:
@@ -359,7 +381,8 @@ def run(ctx: Context, rep) -> None:
                        "through the version gate")
     dinit = ctx.fn("sedpack.io.dataset:Dataset.__init__")
     c2 = CFG(dinit, env={"create_dataset": False})
-    loads = c2.calls(lambda c: ctx.is_call(dinit, c, "DatasetBase._load"))
+    loads = c2.calls(lambda c: ctx.is_call(dinit, c, "DatasetBase._load") or
+                     any(t is load for t in ctx.internal_targets(dinit, c)))
     supers = c2.calls(lambda c: "super().__init__" in ast.unparse(c.func))
     missed = c2.always_before(loads, supers, normal_only=True)
     rep.ob("C20.only", bool(loads) and bool(supers) and not missed,
